@@ -69,7 +69,10 @@ class PipeIndex:
                 fu, fr = (-1, 0) if fixed is None else to_units(fixed, U)
                 segs.append({"read": ru, "readr": rr, "fixed": fu, "fixedr": fr, "law": law_name(sg),
                              "bnum": base.numerator, "bden": base.denominator})
-            ops.append({"par": [self.opref[id(q)][1] for q in o.parents], "segs": segs})
+            # the parents the builder MEANT (recorded while building, when the builder did) - not what the objects say now: the list handed
+            # to new_operator stays the caller's, and a caller may go on using it
+            meant = getattr(pl, "_verif_par", None)
+            ops.append({"par": list(meant[len(ops)]) if meant is not None else [self.opref[id(q)][1] for q in o.parents], "segs": segs})
         return {"prio": pl.priority.name[0], "pid": str(pl.pipeline_id), "ops": ops}
 
     def ost(self):
@@ -185,8 +188,17 @@ class ExecTrace:
                             "hint": {"oom": [r["cid"] for r in res if r["err"]]}})
         self.t += 1
 
-    def exec_raised(self, exc):
-        self.events.append({"ev": "raise", "tid": self.tid, "t": self.t, "exc": type(exc).__name__, "msg": str(exc)[:120], "where": "exec"})
+    def killed(self, container_id, err):
+        """Container.kill(err) was called from outside, between two ticks."""
+        self.events.append({"ev": "kill", "tid": self.tid, "t": self.t, "cid": self.cids.get(container_id), "err": err, "obs": {"ost": self.idx.ost()}})
+
+    def exec_raised(self, exc, after=False):
+        ev = {"ev": "raise", "tid": self.tid, "t": self.t, "exc": type(exc).__name__, "msg": str(exc)[:120], "where": "exec"}
+        if after:
+            # the caller caught the refusal and goes on using the executor: what the refused call left behind
+            self.cids.learn(all_container_ids(self.ex, []))
+            ev["after"] = {"ost": self.idx.ost(), "pools": project_pools(self.ex, self.idx, self.cids, self.U), "results": []}
+        self.events.append(ev)
 
     def end(self):
         self.events.append({"ev": "end", "tid": self.tid, "t": self.t})
